@@ -18,11 +18,11 @@ DAY_VALUES = ["Monday", "Tuesday", "Wednesday", "Thursday", "Friday", "Saturday"
 
 
 def run(prog: Program, rep: Report, tier: str) -> None:
-    rep.rule("R12.1", "Days table: 7 members, weekday 0..6 (Monday first), hex_rep == bit_rep == 2**(weekday+1), all distinct, bit 0 unused", 7)
+    rep.rule("R12.1", "Days table: 7 members, weekday 0..6 (Monday first), hex_rep == bit_rep == 2**(weekday+1), all distinct, bit 0 unused", 7, structural=True)
     rep.rule("R12.2", "encoder normal form: empty -> ValueError; single day -> '{:02x}' of its bit; set, or sequence guarded by len == len(set) -> '{:02x}' of the sum of bit_rep; every other path raises ValueError", 6)
     rep.rule("R12.3", "decoder normal form: masks outside [2,254] raise ValueError; otherwise the result is exactly {d : d.hex_rep & mask != 0}", 100)
     rep.rule("R12.5", "encoder and decoder are not memoised and return fresh values: no cache decorator, the decoder's result set is created inside the call (a shared mutable result would make a later decode of the same mask return whatever a caller did to the earlier result)", 2)
-    rep.rule("R12.4", "lemma on the table: the bits are distinct powers of two in [2,128], so the sum over any subset has exactly its bits, lies in [2,254], fits two hex digits, and decoding returns the subset", 1)
+    rep.rule("R12.4", "lemma on the table: the bits are distinct powers of two in [2,128], so the sum over any subset has exactly its bits, lies in [2,254], fits two hex digits, and decoding returns the subset", 1, structural=True)
     rep.trusted += ["format spec '02x' = at least two zero-padded lower-case hex digits; & on ints; sum(); set semantics (CPython docs)"]
     days = prog.cls(f"{SCHED}:Days")
     if days.enum is None:
